@@ -201,8 +201,10 @@ func (app *App) processSubAppsRoutes() {
 				// Clone the sub-app's route
 				subAppRouteClone := app.copyRoute(subAppRoute)
 
-				// Add the parent route's path as a prefix to the sub-app's route
-				app.addPrefixToRoute(route.path, subAppRouteClone)
+				// Add the mount path as registered (not its prettified form, which is already
+				// lower-cased and unescaped) as a prefix to the sub-app's route; addPrefixToRoute
+				// prettifies the prefixed path itself.
+				app.addPrefixToRoute(route.Path, subAppRouteClone)
 
 				// Add the cloned sub-app's route to the slice of sub-app routes
 				subRoutes[j] = subAppRouteClone
